@@ -82,6 +82,7 @@ impl EngA {
                 n(&[Cmp::N(0), Cmp::N(1), Cmp::N(0)], ""),
                 n(&[Cmp::N(1), Cmp::X], ""),
                 n(&[Cmp::X], ""),
+                n(&[Cmp::N(0), Cmp::N(0), Cmp::N(0)], "a"), // prereleases of 0.0.0 sort below every release
             ];
             if al.thorough {
                 v.push(n(&[Cmp::N(2), Cmp::N(0), Cmp::N(0)], "0"));
